@@ -111,7 +111,13 @@ func (e *Exec) fmtArg(verb byte, a value) []Int {
 			return strBytes(x)
 		}
 		if verb == 'q' {
-			return []Int{e.opaqueUnk()}
+			// strconv.Quote of unknown bytes: unknown text, but equal to
+			// another quoted string exactly when the strings are equal
+			bs := strBytes(x)
+			if hasOpaque(bs) {
+				return []Int{e.opaqueUnk()}
+			}
+			return []Int{{W: 8, X: &Opaque{Kind: "q", Str: append([]Int{}, bs...)}}}
 		}
 	case Int:
 		if verb == 'd' || verb == 'v' {
